@@ -22,6 +22,7 @@ REQUIRED_COUNTS = ["accepted_probes", "rejected_probes", "tail_probes"]
 BUDGET = {"case_timeout": {"quick": 300, "thorough": 1800}}
 
 MAGS = [0.5, 1.0, 3.0, 16.0, 50.0, 1e2, 1e3, 1e4, 1e6]
+ODD = [0.1, 0.3, 0.7, 1.1, 1.7, 2.2, 3.3]
 
 
 def gen_cases(tier, seed):
@@ -47,12 +48,22 @@ def gen_cases(tier, seed):
                         cases.append({"kind": "spline", "family": fam, "box": None, "B": mag, "bins": max(K, 2),
                                       "pscale": ps, "world": world,
                                       "seed": env.subseed(seed, "c17t", fam, mag, ps, world, rep), "cost": 1})
+            # bounds that are not exactly representable: 0.1, 0.3, 1.1, 1.7, 2.2 round UP in float32, 0.7, 3.3 round down;
+            # the domain of a float32 call is bounded by the rounded value (an input holding the bound itself is inside)
+            for fam in ("linear", "quadratic", "cubic", "rq"):
+                for mi, mag in enumerate(ODD):
+                    K = [2, 5, 10, 3][(mi + rep) % 4]
+                    for bx in ([0.0, mag, 0.0, mag], [-mag, mag, -mag, mag], [-mag, 2 * mag, 0.0, mag]):
+                        cases.append({"kind": "spline", "family": fam, "box": bx, "bins": K, "pscale": 1.0,
+                                      "world": world, "seed": env.subseed(seed, "c17o", fam, mag, world, rep, bx), "cost": 1})
+                    cases.append({"kind": "spline", "family": fam, "box": None, "B": mag, "bins": K, "pscale": 1.0,
+                                  "world": world, "seed": env.subseed(seed, "c17ot", fam, mag, world, rep), "cost": 1})
             for fam in ("cdf_linear", "cdf_quadratic", "cdf_cubic", "cdf_rq", "coupling_linear", "coupling_quadratic",
                         "coupling_cubic", "coupling_rq", "ar_linear", "ar_quadratic", "ar_cubic", "ar_rq"):
                 for tails in (None, "linear"):
                     if fam in ("ar_linear", "ar_cubic") and tails:
                         continue
-                    for mag in ([1.0] if tails is None else [1.0, 50.0, 1e3]):
+                    for mag in ([1.0] if tails is None else [1.0, 50.0, 1e3, 0.1, 1.7]):
                         cases.append({"kind": "wrapper", "fam": fam, "tails": tails, "B": mag, "world": world,
                                       "seed": env.subseed(seed, "c17w", fam, tails, mag, world, rep), "cost": 2})
     return cases
@@ -198,7 +209,8 @@ def run_case(case):
                           True, cls, {"family": fam, "direction": direction, "B": B, "bins": K, "pscale": ps, "probe": v,
                                       "position": idx, "world": case["world"]}, magcls)
                     # outside the bound the map is the identity
-                    if abs(v) > B:
+                    # (compared in the dtype of the call: a float32 tensor holding 2.2 holds 2.2000000477, which IS the bound)
+                    if bool(torch.tensor(abs(v), dtype=dtype) > torch.tensor(B, dtype=dtype)):
                         try:
                             with torch.no_grad():
                                 o, l = fn(inputs=x, inverse=inv, **params, **kw)
